@@ -416,14 +416,15 @@ def firstRelevantOnPath (lang : Lang) : NodeRef → List Nat → Option NodeRef
     | none => none
 
 /-- Side conditions of the path (all decidable, evaluated on the real trees by the driver):
-no earlier sibling along the path and no proper ancestor shares the descendant's id, and every
-proper ancestor below `n` reports a positive visible child count. -/
+no earlier sibling along the path and no proper ancestor shares the descendant's slot id.  (That
+every proper ancestor reports a positive visible child count is derived from `Summarized`,
+`ancestor_child_count_pos`.) -/
 def pathOK (lang : Lang) (dId : Nat) : NodeRef → List Nat → Bool
   | _, [] => true
   | n, k :: rest =>
     ((rawChildren lang n).take k).all (fun rc => rc.node.id != dId) &&
     match rawChildAt lang n k with
-    | some c => rest.isEmpty || (c.id != dId && c.childCount != 0 && pathOK lang dId c rest)
+    | some c => rest.isEmpty || (c.id != dId && pathOK lang dId c rest)
     | none => false
 
 
@@ -455,7 +456,7 @@ end
 
 /-- Evaluation of the hypotheses of `parent_spec_partial` / `child_with_descendant_spec_partial`
 on a real tree: over every relevant node below the root, `checked` = non-empty nodes whose path
-satisfies `pathOK` (ids distinct along the search, ancestors report visible children) and for which
+satisfies `pathOK` (slot ids distinct along the search) and for which
 the ported `ts_node_parent` returns `parentOnPath`; `zeroWidth` = nodes excluded by the
 non-emptiness hypothesis; `bad` = non-empty nodes violating a hypothesis or the conclusion. -/
 structure ParentHyp where
@@ -556,6 +557,15 @@ def psPathOK (lang : Lang) (self : NodeRef) : NodeRef → List Nat → Bool
     | some rc => rest.isEmpty || (rc.node.id != self.id && psPathOK lang self rc.node rest)
     | none => false
 
+/-! ### Runtime side of `node_nav_flat_spec` -/
+
+/-- Every node strictly between `n` and the end of the path is hidden (not relevant). -/
+def hiddenPath (lang : Lang) : NodeRef → List Nat → Bool
+  | _, [] => true
+  | n, k :: rest => match rawChildAt lang n k with
+    | some c => rest.isEmpty || (!c.relevant lang true && hiddenPath lang c rest)
+    | none => false
+
 /-- Nearest relevant proper ancestor of the end of the path together with the path from it
 (`parentOnPath` = first component). -/
 def parentSplit (lang : Lang) : NodeRef × List Nat → NodeRef → List Nat → NodeRef × List Nat
@@ -590,7 +600,8 @@ def siblingHyp (lang : Lang) (root : NodeRef) : SiblingHyp :=
       if !d.relevant lang true || d.startByte == d.endByte then acc
       else
         let (par, q) := parentSplit lang (root, p) root p
-        let parOK := par.id == (parentOnPath lang root root p).id
+        let parOK := par.id == (parentOnPath lang root root p).id && hiddenPath lang par q &&
+          (match nodeAt lang par q with | some x => x.id == d.id | none => false)
         let acc :=
           if !(nsPathOK lang d par q) then { acc with outside := acc.outside + 1 }
           else
@@ -666,6 +677,7 @@ def dfrIdeal (lang : Lang) (rs re : Nat) : Nat → NodeRef → NodeRef → NodeR
     match (rawChildren lang node).find? (spans rs re) with
     | none => last
     | some rc => dfrIdeal lang rs re f rc.node (if rc.node.relevant lang true then rc.node else last)
+
 
 
 end TsVerif.C06
